@@ -31,6 +31,7 @@ ASSUMPTIONS = ["single process / sequential for the proved part", "file ctime ti
                "HybridCache durations are injected through put(key, value, duration)"]
 
 KEYS = ("a", "b", "c")
+OBS = KEYS + (1, "1")  # observed keys; 1 and "1" are different keys with the same str() (used by the disk alphabet)
 
 
 def registry():
@@ -67,7 +68,7 @@ def _mk_cache(kind, cfg, tmp):
 
 
 def _observe(cache):
-    return {k: (k in cache) for k in KEYS}, len(cache)
+    return {k: (k in cache) for k in OBS}, len(cache)
 
 
 def run_sequence(kind, cfg, ops):
@@ -203,10 +204,10 @@ def _run_sequence(kind, cfg, ops, tmp):
             bad.append(f"op{n} {op} raised {type(e).__name__}: {str(e)[:80]}")
             break
         if kind == "disk":
-            want_present = {kk: (kk in files) or (mem is not None and kk in mem.d) for kk in KEYS}
+            want_present = {kk: (kk in files) or (mem is not None and kk in mem.d) for kk in OBS}
             want_len = len(files)
         else:
-            want_present = {kk: kk in model.keys() for kk in KEYS}
+            want_present = {kk: kk in model.keys() for kk in OBS}
             want_len = len(model)
         if present != want_present:
             bad.append(f"op{n} {op}: presence {present} but model {want_present}")
@@ -392,6 +393,11 @@ def _cases_disk(tier, rng):
                 if sum(1 for o in seq if o[0] == "put") < 2:
                     continue
                 yield {"kind": "disk", "cfg": {"max_size": ms, "with_lru": with_lru}, "ops": list(seq)}
+    # keys of different types with the same str(): each is its own entry
+    alpha2 = [(op, k) for op in ("put", "get") for k in (1, "1", "a")] + [("clear",)]
+    for _ in range(60 if tier == "quick" else 600):
+        yield {"kind": "disk", "cfg": {"max_size": rng.choice((None, 3, 2)), "with_lru": rng.random() < 0.5},
+               "ops": [rng.choice(alpha2) for _ in range(rng.randint(3, 9))]}
     # reopening on the same directory, possibly with a smaller max_size
     for _ in range(150 if tier == "quick" else 2000):
         ms0 = rng.choice((None, 3, 2))
